@@ -151,9 +151,9 @@ def profile():
             'QByteArray': 'qkey',
             'QXmppTrustMessageKeyOwner': 'qko',
             'QXmppPromise<void>': 'qpromise',
-            'QXmppTask<void>': 'qtask', 'QXmppTask<QXmpp::TrustLevel>': 'qtask', 'QXmppTask<QXmpp::TrustSecurityPolicy>': 'qtask',
+            'QXmppTask<void>': 'qtask', 'QXmppTask<bool>': 'qtask', 'QXmppTask<QXmpp::TrustLevel>': 'qtask', 'QXmppTask<QXmpp::TrustSecurityPolicy>': 'qtask',
             'QXmppTask<QHash<bool,%s>>' % KS: 'qtask', 'QXmppTask<QHash<QString,%s>>' % KS: 'qtask',
-            'QXmpp::TrustLevel': 'int', 'TrustLevel': 'int', 'QXmpp::TrustSecurityPolicy': 'int', 'TrustSecurityPolicy': 'int',
+            'QXmpp::TrustLevel': 'int', 'TrustLevel': 'int', 'QXmpp::TrustLevels': 'int', 'TrustLevels': 'int', 'QFlags<QXmpp::TrustLevel>': 'int', 'QXmpp::TrustSecurityPolicy': 'int', 'TrustSecurityPolicy': 'int',
             KS: 'KeySet', 'QHash<bool,%s>' % KS: 'PostponedResult', 'QHash<QString,%s>' % KS: 'ModifiedKeys',
             'QList<QXmppTrustMessageKeyOwner>': 'KoList', 'QList<QByteArray>': 'KeyList', 'QList<QString>': 'OwnerList',
         },
@@ -199,6 +199,7 @@ def profile():
             'qtask::then/2': then_rule,
             # ---- trust manager / trust storage operations: ASSUMED contracts over the abstract view (storage.h)
             A + '::trustLevel/3': ('callee', 'TrustManager_trustLevel'),
+            A + '::hasKey/3': ('callee', 'TrustManager_hasKey'),
             A + '::setTrustLevel/3': ('callee', 'TrustManager_setTrustLevel_keys'),
             A + '::setTrustLevel/4': ('callee', 'TrustManager_setTrustLevel_owners'),
             A + '::securityPolicy/1': ('callee', 'TrustManager_securityPolicy'),
